@@ -11,7 +11,7 @@ RULE = ("each case runs one seeded script twice in fresh worlds: through the git
         "coincide (logical clock), so notes are compared per commit id (files, sessions, line sets, prompt ids) and blame per file; both runs "
         "are also checked against the ledger. non-trivial = at least one note with AI lines compared and a rewrite op ran; distinct = op sequences")
 
-OPS = ["commit", "commit", "partial", "amend", "rebase", "rebase-i", "cherry", "cherry-abandon", "reset", "stash", "squash", "switch", "pull"]
+OPS = ["commit", "commit", "partial", "amend", "rebase", "rebase-i", "cherry", "cherry-abandon", "cherry-stash", "reset", "stash", "squash", "switch", "pull"]
 
 
 def script(sc):
@@ -33,6 +33,10 @@ def script(sc):
             ai_only = not sc.profile.get("amend_human_edit", True)
             sc.do_edit(author=rng.choice(sc.sessions) if ai_only else None, kinds=["ins", "rep", "mod"] if ai_only else None)
             sc.op_amend()
+        elif op == "cherry-stash":
+            # hooks mode learns about stash push / pop from reference-transaction events on refs/stash, also while a sequencer operation is stopped
+            sc.commit_all("pre")
+            sc.op_stash_during_stopped_cherry_pick()
         elif op == "cherry-abandon":
             sc.commit_all("pre")
             sc.op_cherry_conflict_abandoned_commit()
